@@ -645,6 +645,8 @@ func has(list []string, s string) bool {
 
 func (e *env) payload(label string, n int) []byte { return e.c.Bytes(label, n, n) }
 
+var goRunVersions atomic.Int64
+
 func (e *env) goRun(cf cfg) {
 	c := e.c
 	label := fmt.Sprintf("%d|go|%s", c.Seed, cf.String())
@@ -652,13 +654,17 @@ func (e *env) goRun(cf cfg) {
 	cEnd, sEnd, c2s, s2c := memPipe()
 	ent, _ := e.keys.Get(cf.algo)
 
+	srvCfg := e.serverConfig(srvRand, &cf, nil)
+	if goRunVersions.Load()%2 == 1 {
+		srvCfg.ServerVersion = "SSH-2.0-VerifGoServer_2.0 ends with a blank "
+	}
 	var sconn *ssh.ServerConn
 	var serr error
 	srvReady := make(chan struct{})
 	srvDone := make(chan struct{})
 	go func() {
 		defer close(srvDone)
-		sc, chans, reqs, err := ssh.NewServerConn(sEnd, e.serverConfig(srvRand, &cf, nil))
+		sc, chans, reqs, err := ssh.NewServerConn(sEnd, srvCfg)
 		sconn, serr = sc, err
 		close(srvReady)
 		if err != nil {
@@ -685,6 +691,14 @@ func (e *env) goRun(cf cfg) {
 		},
 		HostKeyAlgorithms: []string{cf.algo},
 		ClientVersion:     "SSH-2.0-VerifGoClient_1.0",
+	}
+	// version lines end in different ways from run to run (a comment, a trailing blank, a blank
+	// before the end): the identification strings enter the exchange hash exactly as sent, minus CR LF
+	switch goRunVersions.Add(1) % 3 {
+	case 1:
+		cconf.ClientVersion = "SSH-2.0-VerifGoClient_1.0 build 7 "
+	case 2:
+		cconf.ClientVersion = "SSH-2.0-VerifGoClient_1.0  two  blanks"
 	}
 	cconf.Rand = cliRand
 	cconf.KeyExchanges, cconf.Ciphers, cconf.MACs = []string{cf.kex}, []string{cf.cipher}, []string{cf.mac}
